@@ -391,6 +391,43 @@ Section Sound.
       replace (MATE0 - (MATE0 - 2 * Z.of_nat n)) with (2 * Z.of_nat n) by lia.
       rewrite Z.mul_comm. apply Z.quot_mul. lia.
   Qed.
+  (** the symmetric statement for a lost root: every root move was returned by the tablebase site
+      with a mate score (all replies mate before the limit) and the root keeps the maximum *)
+  Theorem root_loss_exact : forall root n (res : pos -> Z) rs,
+    DtmCert.mated_in moves in_check n root -> moves root <> nil ->
+    (forall c, In c (moves root) -> exists k a b depth ev ty',
+        tb c = Some (TWin k) /\ tb_node (TWin k) 1 (hmc c) a b depth ev = SCut (res c) ty' /\ isWinScore (res c) = true) ->
+    (exists c, In c (moves root) /\ rs = - res c) -> (forall c, In c (moves root) -> - res c <= rs) ->
+    rs = label_score (TLoss n) 0.
+  Proof.
+    intros root n res rs [Hloss Hmin] Hne Hch [cs [Hins Hrs]] Hmax.
+    assert (Hp1 : ply_ok 1) by (unfold ply_ok; rewrite max_ply_val; lia).
+    assert (Hp1' : 0 <= 1 <= max_ply) by (rewrite max_ply_val; lia).
+    assert (Hm0 : MATE0 = 32000) by reflexivity.
+    (* every child: its exact value *)
+    assert (Hex : forall c, In c (moves root) -> exists k, (1 <= k)%nat /\ 2 * Z.of_nat k - 1 <= 1000 /\
+                    res c = MATE0 - 1 - 2 * Z.of_nat k /\ DtmCert.mate_in moves in_check k c).
+    { intros c Hc. destruct (Hch c Hc) as (k & a & b & depth & ev & ty' & Hv & Hcut & W).
+      destruct (tb_cut_exact c 1 a b (res c) (TWin k) depth ev ty' Hv Hp1 Hcut (or_introl W)) as (Hs & _ & _ & Hcl).
+      destruct (Htb c _ Hv) as [_ [Hr Hn]]. unfold tbval_plies in Hr. specialize (Hn k eq_refl).
+      destruct (label_score_win k 1 Hn ltac:(lia) Hp1') as [E _].
+      exists k. split; [exact Hn|]. split; [lia|]. split; [lia|exact Hcl]. }
+    destruct (Hex cs Hins) as (ks & Hks1 & Hksr & Hress & [Hwin_s Hmin_s]).
+    (* n <= ks: the root is lost within ks moves *)
+    assert (Hle : (n <= ks)%nat).
+    { destruct (le_lt_dec n ks) as [H|H]; [exact H|]. exfalso. apply (Hmin ks H).
+      apply DtmCert.loss_step; [exact Hne|].
+      intros c Hc. destruct (Hex c Hc) as (k & _ & _ & Hres & [Hw _]).
+      apply DtmCert.win_in_mono with (1 := Hw).
+      pose proof (Hmax c Hc) as Hm. lia. }
+    (* ks <= n: the chosen reply cannot be mated faster than its exact distance *)
+    assert (Hge : (ks <= n)%nat).
+    { destruct (le_lt_dec ks n) as [H|H]; [exact H|]. exfalso.
+      inversion Hloss as [n0 p0 Hnil _|n0 p0 _ Hall]; subst; [congruence|].
+      exact (Hmin_s n H (Hall cs Hins)). }
+    assert (n = ks) by lia. subst ks.
+    unfold label_score, dtm_score. lia.
+  Qed.
 End Sound.
 
 (** ** the move chosen at the root: the first move with the highest score *)
